@@ -310,6 +310,16 @@ pub fn sanitise_tag(lang: &Lang, form: Form, tag: &StartTag, multiline_ok: bool)
         a.ws_before = fix_ws(&a.ws_before, true);
         a.ws_eq_l = fix_ws(&a.ws_eq_l, false);
         a.ws_eq_r = fix_ws(&a.ws_eq_r, false);
+        if matches!(form, Form::MdRef(_)) {
+            // inside a Markdown title a line break is only kept in front of an attribute whose name starts with an
+            // ASCII letter: a continuation line starting with `>`, `=`, a quote, a digit, `-` … may be taken for the
+            // start of another Markdown block (by CommonMark or by the grammar's approximation of it)
+            a.ws_eq_l = a.ws_eq_l.replace('\n', " ");
+            a.ws_eq_r = a.ws_eq_r.replace('\n', " ");
+            if !a.name.starts_with(|c: char| c.is_ascii_alphabetic()) {
+                a.ws_before = a.ws_before.replace('\n', " ");
+            }
+        }
         a.val = match &a.val {
             Val::None => Val::None,
             Val::Unquoted(v) => Val::Unquoted(v.clone()),
@@ -335,6 +345,9 @@ pub fn sanitise_tag(lang: &Lang, form: Form, tag: &StartTag, multiline_ok: bool)
         }
     }
     t.ws_end = fix_ws(&t.ws_end, false);
+    if matches!(form, Form::MdRef(_)) {
+        t.ws_end = t.ws_end.replace('\n', " ");
+    }
     t
 }
 
@@ -506,7 +519,8 @@ pub fn build_raw(lang: &Lang, events: &[Ev], crlf: bool) -> Built {
                         ps.push(Part::Glue);
                     }
                     match e {
-                        Ev::Open { tag, .. } => ps.push(Part::Start(sanitise_tag(lang, form, tag, multi))),
+                        // (a Markdown definition's title may run over several lines, so its tags may too)
+                        Ev::Open { tag, .. } => ps.push(Part::Start(sanitise_tag(lang, form, tag, multi || matches!(form, Form::MdRef(_))))),
                         Ev::Close { spelling, .. } => ps.push(Part::End(*spelling as usize % END_SPELLINGS.len())),
                         _ => unreachable!(),
                     }
@@ -607,7 +621,7 @@ pub fn build_raw(lang: &Lang, events: &[Ev], crlf: bool) -> Built {
                 let own_lines = c.form == Form::Block && lang.block.is_some_and(|(o, _)| o == "=begin");
                 // a Markdown comment inside a block quote / list item: marker on the first line, the
                 // container's continuation prefix on the following ones
-                let in_container = md_form && c.container != 0 && (one_line || c.form == Form::MdHtml);
+                let in_container = md_form && c.container != 0;
                 let ind = if own_lines {
                     String::new()
                 } else if in_container {
@@ -663,7 +677,9 @@ pub fn build_raw(lang: &Lang, events: &[Ev], crlf: bool) -> Built {
                 } else if !md_ref {
                     out.push(' ');
                 }
-                let cont = if own_lines { nl.to_string() } else { format!("{nl}{cont_ind}{}", if c.star { " * " } else { "   " }) };
+                // (continuation lines of a Markdown definition are indented by five blanks: with fewer, a line starting with
+                // `>`, `-`, `#` or `1.` would open a new Markdown block instead of continuing the title)
+                let cont = if own_lines { nl.to_string() } else { format!("{nl}{cont_ind}{}", if c.star { " * " } else if md_ref { "     " } else { "   " }) };
                 let mut first = true;
                 for p in &c.parts {
                     match p {
